@@ -42,6 +42,20 @@ def msg_cases(rng, tier, types=None, per_type=None, modes=('mixed', 'random', 'o
             out.append(M(gen.pack(gen.message_bits(rng, t, mode))))
     return with_truncations(rng, out)
 
+def nom_take_cases(rng, tier):
+    """nom::bits::complete::take itself against its transcription (Model/NomBits.v): every count 0..40
+    (and up to 60) x every bit offset x input lengths around the need, contents zeros / ones / one-hot / random"""
+    out = []
+    for cnt in list(range(0, 41)) + [48, 56, 57, 60]:
+        for off in range(8):
+            need = (cnt + off + 7) // 8
+            for n in sorted({0, max(0, need - 1), need, need + 1, need + 3}):
+                pats = [bytes(n), b'\xff' * n] + [bytes(rng.getrandbits(8) for _ in range(n)) for _ in range(scale(tier, 3, 30))]
+                if n: pats.append(bytes((0x80 >> rng.randrange(8)) if i == rng.randrange(n) else 0 for i in range(n)))
+                for b in pats:
+                    out.append('T %d %d %s' % (cnt, off, b.hex() if b else '-'))
+    return out
+
 def bulk_cases(rng, tier, types=None, per_type=None):
     """plain volume: plausible payloads of every type (identities with decimal structure, all other
     fields uniformly random) — finds dependences of a field on the *value* of another field that
@@ -484,11 +498,11 @@ def message_type_sweeps(rng, tier):
         for n, k, sid in ((1, 1, None), (2, 1, 4)):
             l1 = gen.sentence(b'1', 0, n, k, sid)          # ...,A,1,0*hh
             i = l1.rfind(b',') - 1
-            out.append(sweep.case(l1, i, i + 2, d, 1))
+            out.append(sweep.case(l1, i, i + 2, d, 1, sweep.MTYPE))
             l2 = gen.sentence(b'15M0', 0, n, k, sid)
             i = l2.rfind(b',') - 4
-            out.append(sweep.case(l2, i, i + 1, d, 1))
-            out.append(sweep.case(l2, i, l2.rfind(b',') + 1, d, 1))
+            out.append(sweep.case(l2, i, i + 1, d, 1, sweep.MTYPE))
+            out.append(sweep.case(l2, i, l2.rfind(b',') + 1, d, 1, sweep.MTYPE))
     return out
 
 def sentence_context_cases(rng, tier):
